@@ -233,7 +233,7 @@ claim('C03', 'exploration',
       'DESIGN.md section 4, C03')
 
 claim('C17', 'fault_enumeration',
-      'For every public function that can allocate (108 operations over 68 functions: each argument shape of the CIF, '
+      'For every public function that can allocate (112 operations over 68 functions: each argument shape of the CIF, '
       'container, loop, packet-iterator, packet, value, parse, write and utility calls) the single call is executed on a '
       'fresh deterministic fixture with the k-th allocation failing, for every k up to the count of an unfaulted twin '
       '(quick: the first 60 and 10 evenly spaced later ones), separately for the library / hash-table allocator '
